@@ -70,7 +70,10 @@ func configsBase(tier string) []xplore.Config {
 			out = append(out, xplore.Config{Name: fmt.Sprintf("a: reconnect over scripted client attempts=%v closeAtRound=%d", sc, c), Bound: bound, Data: cfgData{part: "a", attempts: sc, closeAt: c}})
 		}
 	}
-	for _, sc := range seqsOf([]string{"dialerr", "e", "nne", "nf", "np", "bbbp"}, maxLen) {
+	// dialerr2 / S2: the dial / the Impl's Subscribe fails with an aggregate
+	// error (one that lists several causes, as an Impl trying every address
+	// of the destination would return)
+	for _, sc := range seqsOf([]string{"dialerr", "e", "nne", "nf", "np", "bbbp", "dialerr2", "S2"}, maxLen) {
 		for _, c := range closes {
 			for _, cache := range []bool{false, true} {
 				if cache && len(sc) > 1 && tier != "thorough" {
@@ -190,8 +193,18 @@ type scriptImpl struct {
 	connected bool
 }
 
+// multiErr is an error that lists several causes (the shape errlist produces).
+type multiErr []error
+
+func (m multiErr) Error() string   { return fmt.Sprint([]error(m)) }
+func (m multiErr) Errors() []error { return m }
+
 func (s *scriptImpl) Subscribe(ctx context.Context, q client.Query) error {
 	s.ctx, s.q = ctx, q
+	if s.script == "S2" {
+		s.tr.add("dialfail#%d", s.id)
+		return multiErr{errors.New("address 1 unreachable"), errors.New("address 2 unreachable")}
+	}
 	s.tr.add("conn#%d", s.id)
 	return nil
 }
@@ -334,6 +347,10 @@ func (harness) Run(cfg xplore.Config, ch vrt.Chooser, trace bool) (xplore.Outcom
 				if sc == "dialerr" {
 					tr.add("dialfail#%d", i)
 					return nil, errors.New("dial failed")
+				}
+				if sc == "dialerr2" {
+					tr.add("dialfail#%d", i)
+					return nil, multiErr{errors.New("address 1 unreachable"), errors.New("address 2 unreachable")}
 				}
 				return &scriptImpl{tr: tr, id: i, script: sc, closeC: make(chan struct{})}, nil
 			})
